@@ -32,10 +32,7 @@ def readByte (d : Dec) : Outcome (Nat × Dec) :=
   | b :: rest => .ok (b.toNat, { d with win := rest })
 
 def internalReadTag (d : Dec) : Outcome (Nat × Dec) :=
-  match readFull d 3 with
-  | .ok (b, d') => .ok (fromBE b, d')
-  | .err e => .err e
-  | .panic s => .panic s
+  (readFull d 3).bind fun (b, d') => .ok (fromBE b, d')
 
 def readTag (d : Dec) : Outcome (Nat × Dec) :=
   if d.last ≠ 0 then .ok (d.last, { d with last := 0 })
@@ -45,72 +42,35 @@ def readTag (d : Dec) : Outcome (Nat × Dec) :=
     take to mean "nothing buffered" -/
 def peekTag (d : Dec) : Outcome (Nat × Dec) :=
   if d.last ≠ 0 then .ok (d.last, d)
-  else match internalReadTag d with
-    | .ok (t, d') => .ok (t, { d' with last := t })
-    | .err e => .err e
-    | .panic s => .panic s
+  else (internalReadTag d).bind fun (t, d') => .ok (t, { d' with last := t })
 
 def expectTag (d : Dec) (expected : Nat) : Outcome Dec :=
-  match readTag d with
-  | .ok (t, d') => if expected ≠ t ∧ expected ≠ anyTag then .err .other else .ok d'
-  | .err e => .err e
-  | .panic s => .panic s
+  (readTag d).bind fun (t, d') => if expected ≠ t ∧ expected ≠ anyTag then .err .other else .ok d'
 
 def expectType (d : Dec) (expected : Nat) : Outcome Dec :=
-  match readByte d with
-  | .ok (t, d') => if expected ≠ t then .err .other else .ok d'
-  | .err e => .err e
-  | .panic s => .panic s
+  (readByte d).bind fun (t, d') => if expected ≠ t then .err .other else .ok d'
 
 def readLength (d : Dec) : Outcome (Nat × Dec) :=
-  match readFull d 4 with
-  | .ok (b, d') => .ok (fromBE b, d')
-  | .err e => .err e
-  | .panic s => .panic s
+  (readFull d 4).bind fun (b, d') => .ok (fromBE b, d')
 
 def expectLength (d : Dec) (expected : Nat) : Outcome Dec :=
-  match readLength d with
-  | .ok (l, d') => if expected ≠ l then .err .other else .ok d'
-  | .err e => .err e
-  | .panic s => .panic s
+  (readLength d).bind fun (l, d') => if expected ≠ l then .err .other else .ok d'
 
 /-- tag, type, and fixed length of a fixed-size item, then its 8 value bytes -/
 def readFixed (d : Dec) (tag ty len : Nat) : Outcome (Bytes × Dec) :=
-  match expectTag d tag with
-  | .ok d1 =>
-    match expectType d1 ty with
-    | .ok d2 =>
-      match expectLength d2 len with
-      | .ok d3 => readFull d3 8
-      | .err e => .err e
-      | .panic s => .panic s
-    | .err e => .err e
-    | .panic s => .panic s
-  | .err e => .err e
-  | .panic s => .panic s
+  (expectTag d tag).bind fun d1 =>
+  (expectType d1 ty).bind fun d2 =>
+  (expectLength d2 len).bind fun d3 =>
+  readFull d3 8
 
 /-- `readByteSlice`: the payload is read in chunks as it arrives (flat view: `l` bytes, then the padding) -/
 def readVar (d : Dec) (tag ty : Nat) : Outcome (Bytes × Nat × Dec) :=
-  match expectTag d tag with
-  | .ok d1 =>
-    match expectType d1 ty with
-    | .ok d2 =>
-      match readLength d2 with
-      | .ok (l, d3) =>
-        match readFull d3 l with
-        | .ok (v, d4) =>
-          match readFull d4 (padLen l) with
-          | .ok (_, d5) => .ok (v, l + 8 + padLen l, d5)
-          | .err e => .err e
-          | .panic s => .panic s
-        | .err e => .err e
-        | .panic s => .panic s
-      | .err e => .err e
-      | .panic s => .panic s
-    | .err e => .err e
-    | .panic s => .panic s
-  | .err e => .err e
-  | .panic s => .panic s
+  (expectTag d tag).bind fun d1 =>
+  (expectType d1 ty).bind fun d2 =>
+  (readLength d2).bind fun (l, d3) =>
+  (readFull d3 l).bind fun (v, d4) =>
+  (readFull d4 (padLen l)).bind fun (_, d5) =>
+  .ok (v, l + 8 + padLen l, d5)
 
 def boolOfBytes (b : Bytes) : Option Bool :=
   if b.take 7 = zeros 7 then
@@ -122,67 +82,26 @@ def boolOfBytes (b : Bytes) : Option Bool :=
 
 /-- the eight primitive readers; result: value, the per-field byte count `n`, the reader afterwards -/
 def readPrim (d : Dec) (tag : Nat) : PTy → Outcome (Val × Nat × Dec)
-  | .int =>
-    match readFixed d tag 2 4 with
-    | .ok (b, d') => .ok (.int (fromBE (b.take 4)), 16, d')
-    | .err e => .err e
-    | .panic s => .panic s
-  | .long =>
-    match readFixed d tag 3 8 with
-    | .ok (b, d') => .ok (.long (fromBE b), 16, d')
-    | .err e => .err e
-    | .panic s => .panic s
-  | .enum =>
-    match readFixed d tag 5 4 with
-    | .ok (b, d') => .ok (.enum (fromBE (b.take 4)), 16, d')
-    | .err e => .err e
-    | .panic s => .panic s
-  | .bool =>
-    match readFixed d tag 6 8 with
-    | .ok (b, d') =>
+  | .int => (readFixed d tag 2 4).bind fun (b, d') => .ok (.int (fromBE (b.take 4)), 16, d')
+  | .long => (readFixed d tag 3 8).bind fun (b, d') => .ok (.long (fromBE b), 16, d')
+  | .enum => (readFixed d tag 5 4).bind fun (b, d') => .ok (.enum (fromBE (b.take 4)), 16, d')
+  | .bool => (readFixed d tag 6 8).bind fun (b, d') =>
       match boolOfBytes b with
       | some x => .ok (.bool x, 16, d')
       | none => .err .other
-    | .err e => .err e
-    | .panic s => .panic s
-  | .time =>
-    match readFixed d tag 9 8 with
-    | .ok (b, d') => .ok (.time (fromBE b), 16, d')
-    | .err e => .err e
-    | .panic s => .panic s
-  | .interval =>
-    match readFixed d tag 10 4 with
-    | .ok (b, d') => .ok (.interval ((fromBE (b.take 4) : Nat) * 1000000000), 16, d')
-    | .err e => .err e
-    | .panic s => .panic s
-  | .bytes =>
-    match readVar d tag 8 with
-    | .ok (v, n, d') => .ok (.bytes v, n, d')
-    | .err e => .err e
-    | .panic s => .panic s
-  | .text =>
-    match readVar d tag 7 with
-    | .ok (v, n, d') => .ok (.text v, n, d')
-    | .err e => .err e
-    | .panic s => .panic s
+  | .time => (readFixed d tag 9 8).bind fun (b, d') => .ok (.time (fromBE b), 16, d')
+  | .interval => (readFixed d tag 10 4).bind fun (b, d') => .ok (.interval ((fromBE (b.take 4) : Nat) * 1000000000), 16, d')
+  | .bytes => (readVar d tag 8).bind fun (v, n, d') => .ok (.bytes v, n, d')
+  | .text => (readVar d tag 7).bind fun (v, n, d') => .ok (.text v, n, d')
 
 /-- the `skip` path of decodeValue: any type byte, declared length padded (in 64 bits) and discarded -/
 def readSkip (d : Dec) (tag : Nat) : Outcome (Nat × Dec) :=
-  match expectTag d tag with
-  | .ok d1 =>
-    match readByte d1 with
-    | .ok (_, d2) =>
-      match readLength d2 with
-      | .ok (l, d3) =>
-        let ll := l + padLen l
-        if ll ≤ d3.win.length then .ok (8 + ll, { d3 with win := d3.win.drop ll })
-        else .err d3.fin.err           -- io.CopyN reports io.EOF (raw) when the source ends early
-      | .err e => .err e
-      | .panic s => .panic s
-    | .err e => .err e
-    | .panic s => .panic s
-  | .err e => .err e
-  | .panic s => .panic s
+  (expectTag d tag).bind fun d1 =>
+  (readByte d1).bind fun (_, d2) =>
+  (readLength d2).bind fun (l, d3) =>
+    let ll := l + padLen l
+    if ll ≤ d3.win.length then .ok (8 + ll, { d3 with win := d3.win.drop ll })
+    else .err d3.fin.err           -- io.CopyN reports io.EOF (raw) when the source ends early
 
 /-- selector value held by an already-decoded field -/
 def keyOf : FV → Option Key
@@ -208,26 +127,19 @@ def dynTyOf (prev : List FV) : FTy → FTy
   | .unsupported => .unsupported
 
 /-- the slice loop of `decode` (decode.go:342-368). `step` decodes one element; `fuel` bounds the
-    iterations structurally (each iteration consumes ≥ 8 bytes, so window length + 1 suffices). -/
+    iterations structurally (each iteration consumes ≥ 8 bytes, so the length of the logical window suffices). -/
 def sliceLoop (step : Dec → Outcome (Val × Nat × Dec)) (ftag expected : Nat) :
     Nat → Dec → Nat → Outcome (List Val × Nat × Dec)
   | 0, _, _ => .err .other
   | fuel + 1, dd, n =>
-    match (step dd).wrap with
-    | .ok (v, nn, dd1) =>
+    (step dd).wrap.bind fun (v, nn, dd1) =>
       let n' := n + nn
       if n' % two32 ≥ expected then .ok ([v], n', dd1)
-      else match peekTag dd1 with
-        | .ok (tag, dd2) =>
+      else
+        -- the error of this peek is returned raw (not wrapped) by the Go code
+        (peekTag dd1).bind fun (tag, dd2) =>
           if tag ≠ ftag then .ok ([v], n', dd2)
-          else match sliceLoop step ftag expected fuel dd2 n' with
-            | .ok (vs, n'', dd3) => .ok (v :: vs, n'', dd3)
-            | .err e => .err e
-            | .panic s => .panic s
-        | .err e => .err e            -- returned raw (not wrapped) by the Go code
-        | .panic s => .panic s
-    | .err e => .err e
-    | .panic s => .panic s
+          else (sliceLoop step ftag expected fuel dd2 n').bind fun (vs, n'', dd3) => .ok (v :: vs, n'', dd3)
 
 /-- the limited reader handed to the nested Decoder of a structure body -/
 def limitDec (d : Dec) (expected : Nat) : Dec :=
@@ -266,36 +178,19 @@ mutual
   /-- `decode(rv, structDesc)` with `structDesc.tag = tag` -/
   def decStruct (tag : Nat) : SD → Dec → Outcome (Val × Nat × Dec)
     | .mk _ _ fields, d =>
-      match expectTag d tag with
-      | .ok d1 =>
-        match expectType d1 structCode with
-        | .ok d2 =>
-          match readLength d2 with
-          | .ok (expected, d3) =>
-            match decFields fields expected (limitDec d3 expected) 0 [] with
-            | .ok (vals, nsum, _) =>
-              if nsum % two32 ≠ expected then .err .other
-              else .ok (.struct vals, 8 + nsum, { d3 with win := d3.win.drop expected })
-            | .err e => .err e
-            | .panic s => .panic s
-          | .err e => .err e
-          | .panic s => .panic s
-        | .err e => .err e
-        | .panic s => .panic s
-      | .err e => .err e
-      | .panic s => .panic s
+      (expectTag d tag).bind fun d1 =>
+      (expectType d1 structCode).bind fun d2 =>
+      (readLength d2).bind fun (expected, d3) =>
+      (decFields fields expected (limitDec d3 expected) 0 []).bind fun (vals, nsum, _) =>
+        if nsum % two32 ≠ expected then .err .other
+        else .ok (.struct vals, 8 + nsum, { d3 with win := d3.win.drop expected })
   /-- the field loop; `n` = sum of the per-field counts so far -/
   def decFields : List Fld → Nat → Dec → Nat → List FV → Outcome (List FV × Nat × Dec)
     | [], _, dd, n, _ => .ok ([], n, dd)
     | f :: fs, expected, dd, n, prev =>
-      match decField f expected dd n prev with
-      | .ok (fv, n', dd') =>
-        match decFields fs expected dd' n' (prev ++ [fv]) with
-        | .ok (rest, n'', dd'') => .ok (fv :: rest, n'', dd'')
-        | .err e => .err e
-        | .panic s => .panic s
-      | .err e => .err e
-      | .panic s => .panic s
+      (decField f expected dd n prev).bind fun (fv, n', dd') =>
+      (decFields fs expected dd' n' (prev ++ [fv])).bind fun (rest, n'', dd'') =>
+      .ok (fv :: rest, n'', dd'')
   def decField : Fld → Nat → Dec → Nat → List FV → Outcome (FV × Nat × Dec)
     | .mk name tag required slice skip ty, expected, dd, n, prev =>
       match peekTag dd with
@@ -306,25 +201,16 @@ mutual
       | .ok (t, dd1) =>
         if required = false ∧ t ≠ tag ∧ tag ≠ anyTag then .ok (zeroFld (.mk name tag required slice skip ty), n, dd1)
         else if skip then
-          match (readSkip dd1 tag).wrap with
-          | .ok (nn, dd2) => .ok (.skip false, n + nn, dd2)
-          | .err e => .err e
-          | .panic s => .panic s
+          (readSkip dd1 tag).wrap.bind fun (nn, dd2) => .ok (.skip false, n + nn, dd2)
         else if slice then
-          match sliceLoop (decValue tag prev ty) tag expected (dd1.win.length + 1) dd1 n with
-          | .ok (vs, n', dd2) => .ok (.many vs, n', dd2)
-          | .err e => .err e
-          | .panic s => .panic s
+          (sliceLoop (decValue tag prev ty) tag expected (dd1.win.length + 3) dd1 n).bind fun (vs, n', dd2) => .ok (.many vs, n', dd2)
         else
-          match (decValue tag prev ty dd1).wrap with
-          | .ok (v, nn, dd2) =>
+          (decValue tag prev ty dd1).wrap.bind fun (v, nn, dd2) =>
             match ty with
             | .dyn _ _ => .ok (.dyn (.val false (dynTyOf prev ty) v), n + nn, dd2)
             | .prim _ => .ok (.one v, n + nn, dd2)
             | .struct _ => .ok (.one v, n + nn, dd2)
             | .unsupported => .ok (.one v, n + nn, dd2)
-          | .err e => .err e
-          | .panic s => .panic s
 end
 
 /-- targets of `Decode(v)` (C13) -/
